@@ -854,7 +854,7 @@ class DcmMetaExtension(Nifti1Extension):
         else:
             new_mult = 1
         mult_fact = int(new_mult // curr_mult)
-        if curr_mult == 1:
+        if curr_class is None or curr_class == ('global', 'const'):
             values = [values]
 
 
